@@ -142,7 +142,7 @@ func c03Run(raw json.RawMessage, c *mc.Ctx) {
 			return b
 		})
 	case "seq":
-		w := buildBatchWorld(root, 4)
+		w := buildBatchWorld(root, 40)
 		session := hermes.NewHermesSession()
 		defer session.Close()
 		for i, n := range sp.Batch {
